@@ -112,6 +112,7 @@ where
         S: DataMut,
     {
         let n = self.len();
+        assert!(i < n, "index {} is out of bounds for an array of length {}", i, n);
         if n == 1 {
             self[0].clone()
         } else {
@@ -141,6 +142,15 @@ where
         let mut deduped_indexes: Vec<usize> = indexes.to_vec();
         deduped_indexes.sort_unstable();
         deduped_indexes.dedup();
+        if let Some(&largest) = deduped_indexes.last() {
+            let n = self.len();
+            assert!(
+                largest < n,
+                "index {} is out of bounds for an array of length {}",
+                largest,
+                n
+            );
+        }
 
         get_many_from_sorted_mut_unchecked(self, &deduped_indexes)
     }
